@@ -54,6 +54,7 @@ def _work(payload):
     fails = []
     cnt = 0
     maxlen = 0
+    hist = core.History()
     for n, conn, prog in payload:
         prog = [tuple(g) for g in prog]
         cnt += 1
@@ -62,8 +63,12 @@ def _work(payload):
             msgs = judge(n, conn, prog)
         except Exception as ex:      # noqa: BLE001
             msgs = ["raised %s: %s" % (type(ex).__name__, str(ex)[:160])]
-        for m in msgs[:2]:
-            fails.append((m, {"kind": "program", "n": n, "conn": conn, "program": [list(g) for g in prog]}))
+        case = {"kind": "program", "n": n, "conn": conn, "program": [list(g) for g in prog]}
+        if msgs:
+            cj = hist.attach(case)
+            for m in msgs[:2]:
+                fails.append((m, cj))
+        hist.add(case)
     return cnt, maxlen, fails
 
 
